@@ -257,7 +257,15 @@ impl<'a> Sk<'a> {
                 }
                 match (l, r) {
                     (Some(a), Some(c)) if !op.ends_with('=') || ["==", "!=", "<=", ">="].contains(&op.as_str()) => Ok(Some(format!("{a} {op} {c}"))),
-                    _ => Ok(None),
+                    (l, r) => {
+                        // the value is erased, but an event call among the operands still happens
+                        for t in [l, r].into_iter().flatten() {
+                            if t.contains('(') && !t.starts_with('(') && !t.starts_with("fl_") && !t.starts_with("arb::") {
+                                out.push(format!("let _ = {t}; {}", self.srcnote(e.span())));
+                            }
+                        }
+                        Ok(None)
+                    }
                 }
             }
             Expr::Try(t) => {
@@ -393,8 +401,17 @@ impl<'a> Sk<'a> {
                 }
             }
             Expr::Array(a) => {
+                // an array literal of kept / tracked values keeps its value
+                let mut parts = Vec::new();
+                let mut all = !a.elems.is_empty();
                 for x in &a.elems {
-                    self.effects(x, out)?;
+                    match self.val(x, out)? {
+                        Some(v) => parts.push(v),
+                        None => all = false,
+                    }
+                }
+                if all {
+                    return Ok(Some(format!("[{}]", parts.join(", "))));
                 }
                 Ok(None)
             }
@@ -475,7 +492,7 @@ impl<'a> Sk<'a> {
                         other => {
                             let mut o = Vec::new();
                             let v = self.val(other, &mut o)?;
-                            v.map(|v| format!("{{ {} {v} }}", o.join(" ")))
+                            v.map(|v| format!("{{\n{}\n{v} }}", o.join("\n")))
                         }
                     };
                     let Some(v) = v else {
@@ -494,7 +511,7 @@ impl<'a> Sk<'a> {
             other => {
                 let mut o = Vec::new();
                 let v = self.val(other, &mut o)?;
-                Ok(v.map(|v| format!("{{ {} {v} }}", o.join(" "))))
+                Ok(v.map(|v| format!("{{\n{}\n{v} }}", o.join("\n"))))
             }
         }
     }
@@ -507,7 +524,7 @@ impl<'a> Sk<'a> {
         }
         let v = self.val(tail, &mut lines)?;
         match v {
-            Some(v) => Ok(Some(format!("{{ {} {v} }}", lines.join(" ")))),
+            Some(v) => Ok(Some(format!("{{\n{}\n{v} }}", lines.join("\n")))),
             None => {
                 self.restore(save);
                 Ok(None)
